@@ -17,7 +17,7 @@ import (
 func init() {
 	core.Register(&core.Check{
 		ID:     "C20",
-		Rule:   "cases: (local resolver) a dynamic schema known to a caller-supplied Resolver only - Any values embedding a message with extensions declared at file scope and inside a message, an extension of message type and a nested Any - marshalled and parsed back with that Resolver under the option combinations; PRNG-filled JSON-representable messages (in-range Timestamp/Duration, valid UTF-8, reversible FieldMask paths, set finite Values, resolvable nested Any, NaN/+-Inf/-0, 64-bit extremes, unknown numbers of open enums, extensions, groups, maps of every key kind, unknown fields sprinkled at several depths) of every linked message type (generated and dynamicpb) under all 64 combinations of Multiline, Indent, UseProtoNames, UseEnumNumbers, EmitUnpopulated, EmitDefaultValues; plus non-representable content (out-of-range or sign-mismatched Timestamp/Duration, invalid UTF-8, unset/non-finite Value, irreversible FieldMask, unresolvable or malformed Any) for the marshal-error direction; distinct = distinct (type, option set, output); non-trivial = at least one populated field",
+		Rule:   "cases: (local resolver) a dynamic schema known to a caller-supplied Resolver only - Any values embedding a message with extensions declared at file scope and inside a message, an extension of message type and a nested Any - marshalled and parsed back with that Resolver under the option combinations; (runes) every rune of the basic plane and a sample beyond it, followed by a hex digit, as string field value and map key through Marshal and Unmarshal; PRNG-filled JSON-representable messages (in-range Timestamp/Duration, valid UTF-8, reversible FieldMask paths, set finite Values, resolvable nested Any, NaN/+-Inf/-0, 64-bit extremes, unknown numbers of open enums, extensions, groups, maps of every key kind, unknown fields sprinkled at several depths) of every linked message type (generated and dynamicpb) under all 64 combinations of Multiline, Indent, UseProtoNames, UseEnumNumbers, EmitUnpopulated, EmitDefaultValues; plus non-representable content (out-of-range or sign-mismatched Timestamp/Duration, invalid UTF-8, unset/non-finite Value, irreversible FieldMask, unresolvable or malformed Any) for the marshal-error direction; distinct = distinct (type, option set, output); non-trivial = at least one populated field",
 		Assume: []string{"proto.Equal (C30) and model/snapshot.go equality", "the classifier of non-representable content in checks/c20.go (transcribes the property statement)"},
 		Batches: func(tier string) []core.Batch {
 			if tier == "thorough" {
@@ -26,7 +26,7 @@ func init() {
 			return stdBatches([]string{"base"}, 16)
 		},
 		Gates: func(tier string) map[string]int64 {
-			g := map[string]int64{"roundtrips": 20000, "dynamic": 1000, "with_unknown": 500, "with_any": 5, "with_extension": 10, "nonrep_cases": 500, "nonrep_marshal_error": 100, "local_resolver_roundtrips": 60, "local_resolver_extensions_inside_any": 200}
+			g := map[string]int64{"roundtrips": 20000, "dynamic": 1000, "with_unknown": 500, "with_any": 5, "with_extension": 10, "nonrep_cases": 500, "nonrep_marshal_error": 100, "local_resolver_roundtrips": 60, "local_resolver_extensions_inside_any": 200, "rune_roundtrips": 30000}
 			for i := 0; i < 64; i++ {
 				g[fmt.Sprintf("opt:%02d", i)] = 100
 			}
@@ -173,6 +173,49 @@ func runC20(c *core.Ctx, b core.Batch) {
 	c20NonRepresentable(c, b)
 	if b.Cfg == "base" && b.N == 0 {
 		c20Local(c)
+		c20Runes(c)
+	}
+}
+
+// c20Runes round-trips strings holding every rune of the basic plane (and a
+// sample beyond it), each followed by a hex digit, as field value and map key.
+func c20Runes(c *core.Ctx) {
+	t3 := gen.TypeByName("goproto.proto.test3.TestAllTypes")
+	if t3 == nil {
+		return
+	}
+	fs, fm := t3.Descriptor().Fields().ByName("singular_string"), t3.Descriptor().Fields().ByName("map_string_string")
+	for i := 0; i < 0x10000+c.Scale(1000, 40000); i++ {
+		rn := rune(i)
+		if i >= 0x10000 {
+			r := c.Rng(uint64(0x20e)<<32 | uint64(i))
+			rn = rune(0x10000 + r.Intn(0x100000))
+		}
+		if rn >= 0xd800 && rn <= 0xdfff {
+			continue
+		}
+		s := "a" + string(rn) + "b" + string(rn) + "0"
+		m := t3.New()
+		m.Set(fs, protoreflect.ValueOfString(s))
+		m.Mutable(fm).Map().Set(protoreflect.ValueOfString(s).MapKey(), protoreflect.ValueOfString(s))
+		c.Eval()
+		c.Count("rune_roundtrips")
+		out, err := protojson.MarshalOptions{Multiline: i%2 == 0}.Marshal(m.Interface())
+		d := map[string]any{"rune": fmt.Sprintf("U+%04X", rn), "json": clip(string(out), 300)}
+		if err != nil {
+			d["err"] = errStr(err)
+			c.Violation("json:rune:marshal-error-on-representable:"+c21RuneClass(rn), d)
+			continue
+		}
+		got := t3.New()
+		if e := protojson.Unmarshal(out, got.Interface()); e != nil {
+			d["err"] = errStr(e)
+			c.Violation("json:rune:unmarshal-error-on-own-output:"+c21RuneClass(rn), d)
+			continue
+		}
+		if !proto.Equal(got.Interface(), m.Interface()) {
+			c.Violation("json:rune:roundtrip-differs:"+c21RuneClass(rn), d)
+		}
 	}
 }
 
